@@ -87,3 +87,15 @@ Example C04_example :
   | _, _ => False
   end.
 Proof. vm_compute. repeat split; try reflexivity. discriminate. Qed.
+
+(* non-vacuity for metadata edits: the shared Param gets another metadata set (3) and a new value inside the transform; the
+   caller's Variable (location 1, reached through both arguments) carries both afterwards, as after the eager call *)
+Example C04_metadata_example :
+  let args := [VRef 0; VRef 2] in
+  let f := mkFn [MSetMeta [1%N; 1%N] 3%N; MSetVar [0%N; 1%N] (EAdd (ERead [1%N; 1%N]) (EConst 4))] (ERead [0%N; 1%N]) None in
+  match run_eager f 1 ex_h args, run_ctx true f 1 ex_h args with
+  | Some e, Some c => observe ex_h args e = observe ex_h args c /\ snd (fst c) = 9%N /\
+                      nth_error (fst (fst c)) 1 = Some (OVar 11 9 3)
+  | _, _ => False
+  end.
+Proof. vm_compute. repeat split; reflexivity. Qed.
